@@ -32,7 +32,7 @@ SPEC = {
              "between consecutive TEAL lines; distinct = distinct tree hashes."),
     "assumptions": ["an independent 25-line Base64-VLQ decoder for the Revision-3 'mappings' string", "vlib/tealgrammar.py tokenizer (comment removal)"],
     "min_evaluations": {"quick": 300, "thorough": 3000},
-    "must_reach": ["teal_identical_3way", "markers_attributed", "keys_ok", "entries_point_into_files", "json_roundtrip_ok", "independent_vlq_ok", "annotated_ok",
+    "must_reach": ["teal_identical_3way", "second_cwd_entries_resolve", "markers_attributed", "keys_ok", "entries_point_into_files", "json_roundtrip_ok", "independent_vlq_ok", "annotated_ok",
                    "multi_module", "large_delta", "router_trees", "synthetic_maps_ok", "assembled_trees", "repeated_constants_checked"],
     "shard_timeout": {"quick": 2400, "thorough": 14400},
 }
@@ -124,7 +124,7 @@ def check_tree(pt, acc, desc, directory, off_teal, rng):
     from ..common import PT_ERRORS, h, reset_globals
     reset_globals()
     acc.evaluations += 1
-    case = {"tree": {k: desc.get(k) for k in ("main", "entry", "version", "nlines", "repeats", "assemble", "typetrack")}, "sources": [open(p).read() for p in desc["files"]]}
+    case = {"tree": {k: desc.get(k) for k in ("main", "entry", "version", "nlines", "repeats", "assemble", "typetrack", "elsewhere")}, "sources": [open(p).read() for p in desc["files"]]}
     try:
         m = importlib.import_module(desc["main"])
         router = desc["entry"] == "router"
@@ -279,6 +279,41 @@ def check_tree(pt, acc, desc, directory, off_teal, rng):
                 acc.violation("annotated_teal", case, "annotated TEAL with comments removed differs from the plain TEAL")
             else:
                 acc.counters["annotated_ok"] += 1
+    # ---- 6. the same program mapped again from another working directory: the entries must still name existing files (and the
+    # same ones) when resolved against the new map's own source root
+    if desc.get("elsewhere") and not router:
+        here = os.getcwd()
+        alt = os.path.join(directory, "elsewhere%d" % (acc.counters["mapped_again_from_another_cwd"] % 2))
+        os.makedirs(alt, exist_ok=True)
+        os.chdir(alt)
+        try:
+            res2 = pt.Compilation(prog, pt.Mode.Application, version=desc["version"], assemble_constants=asm, **tt).compile(with_sourcemap=True, teal_filename="gen.teal")
+            r3b = res2.sourcemap.r3_sourcemap
+            first = maps[0][1].r3_sourcemap
+            root1, root2 = first.source_root or here, r3b.source_root or ""
+            acc.counters["mapped_again_from_another_cwd"] += 1
+            tree_files = {os.path.realpath(f) for f in desc["files"]}
+            if res2.teal != plain:
+                acc.violation("sourcemap_changes_teal", dict(case, after_chdir=True), "TEAL of the second mapped compilation (other working directory) differs")
+            for k, e in sorted(r3b.entries.items()):
+                p2 = os.path.normpath(os.path.join(root2, e.source)) if e.source is not None else None
+                e1 = first.entries.get(k)
+                p1 = os.path.normpath(os.path.join(root1, e1.source)) if e1 is not None and e1.source is not None else None
+                if p2 is None or not os.path.isfile(p2):
+                    acc.violation("map_entry", dict(case, after_chdir=True), "mapped again after chdir: entry %d names %r under source root %r, which is not an existing file" % (k[0], e.source, root2))
+                    break
+                in_tree = os.path.realpath(p2) in tree_files
+                # (lines attributed to the Compilation(...) call itself sit in this file, at two different call sites)
+                if p1 is None or os.path.realpath(p1) != os.path.realpath(p2) or (in_tree and e1.source_line != e.source_line):
+                    acc.violation("map_entry", dict(case, after_chdir=True), "mapped again after chdir: entry %d points at %s:%d, the first map pointed at %s:%d"
+                                  % (k[0], p2, e.source_line + 1, p1, (e1.source_line + 1) if e1 else -1))
+                    break
+            else:
+                acc.counters["second_cwd_entries_resolve"] += 1
+        except PT_ERRORS as e:
+            acc.violation("sourcemap_request_fails", dict(case, after_chdir=True), "mapped compilation from another working directory raises %s: %s" % (type(e).__name__, " ".join(str(e).split())[:200]))
+        finally:
+            os.chdir(here)
     acc.sample({"modules": len(desc["files"]), "entry": desc["entry"], "version": desc["version"], "lines": desc["nlines"], "teal_lines": len(plain.split("\n"))}, cap=4)
 
 
